@@ -29,6 +29,7 @@ def _run_one(func, case, scratch_root, timeout):
             sys.path.insert(0, scratch)
             devnull = os.open(os.devnull, os.O_WRONLY)
             os.dup2(devnull, 1)
+            os.dup2(devnull, 2)
             signal.signal(signal.SIGALRM, _alarm)
             signal.alarm(timeout)
             out = func(case)
